@@ -5,11 +5,13 @@ import (
 	"go/token"
 	"go/types"
 	"golang.org/x/tools/go/ssa"
+	"golang.org/x/tools/go/ssa/ssautil"
 	"hash/fnv"
 	"math/big"
 	"regexp"
 	"sort"
 	"strings"
+	"sync"
 )
 
 // EvalCtx is the context in which a contract expression is evaluated.
@@ -1098,9 +1100,55 @@ func (g *FnGen) evalBoolNoInst(qf QFact) string {
 }
 
 // paramNamesOf lists receiver and parameter names of an in-repo function, receiver first.
+var (
+	extFuncOnce sync.Once
+	extFuncs    map[string]*ssa.Function
+)
+
 func (g *FnGen) paramNamesOf(fn string) []string {
 	f := g.P.Funcs[fn]
 	if f == nil {
+		// a dependency function (extern contract with a reads clause): found among all functions
+		extFuncOnce.Do(func() {
+			extFuncs = map[string]*ssa.Function{}
+			for af := range ssautil.AllFunctions(g.P.Prog) {
+				extFuncs[fnName(af)] = af
+			}
+		})
+		f = extFuncs[fn]
+		if f != nil && len(f.Params) == 0 {
+			f = nil // declared but not built: no parameter objects
+		}
+	}
+	if f == nil {
+		// "(import/path.Type).Method" or "(*import/path.Type).Method" of a dependency: through go/types
+		if m := extMethodRe.FindStringSubmatch(fn); m != nil {
+			for _, sp := range g.P.Prog.AllPackages() {
+				if sp.Pkg.Path() != m[1] {
+					continue
+				}
+				obj := sp.Pkg.Scope().Lookup(m[2])
+				if obj == nil {
+					continue
+				}
+				ms := types.NewMethodSet(types.NewPointer(obj.Type()))
+				for i := 0; i < ms.Len(); i++ {
+					fo, ok := ms.At(i).Obj().(*types.Func)
+					if !ok || fo.Name() != m[3] {
+						continue
+					}
+					sig := fo.Type().(*types.Signature)
+					var out []string
+					if sig.Recv() != nil {
+						out = append(out, sig.Recv().Name())
+					}
+					for k := 0; k < sig.Params().Len(); k++ {
+						out = append(out, sig.Params().At(k).Name())
+					}
+					return out
+				}
+			}
+		}
 		return nil
 	}
 	var out []string
@@ -1125,6 +1173,8 @@ func (g *FnGen) pkgFuncSig(name string) *types.Signature {
 	}
 	return nil
 }
+
+var extMethodRe = regexp.MustCompile(`^\(\*?([^()]+)\.([A-Za-z0-9_]+)\)\.([A-Za-z0-9_]+)$`)
 
 var qNameRe = regexp.MustCompile(`q_[A-Za-z0-9_]+![0-9]+`)
 
